@@ -225,7 +225,11 @@ def e2e_checks(ck, rng, quick):
         for nldf, sdmx, ev, mode in (("j", "SDMX", "rbf", "SEP"), ("i", "none", "kernel", "NPOL"), ("k", "G1", "rbf", "SEP"), ("ij", "none", "spinrbf", "POL")):
             cfg = {"sl": "npa", "nldf": nldf, "sdmx": sdmx, "plan": "gaussian", "interp": "onsite_direct", "eval": ev, "mode": mode, "mix": "xmix_c"}
             try:
-                ks = e2e.make_session(cfg, mol, unres, 1, atom_grid=(90, 110) if not quick else (60, 50))
+                ks = e2e.make_session(cfg, mol, unres, 1, atom_grid=((90, 110) if not quick else (60, 50)) if name != "Ne@pad" else (61, 50))
+                if name == "Ne@pad":
+                    npad = int(np.count_nonzero((np.abs(ks.grids.coords - 1e-4).max(axis=1) == 0) & (ks.grids.weights == 0)))
+                    if npad == 0:
+                        raise MachineryError("the Ne@pad grid has no padding point (size %d)" % ks.grids.weights.size)
                 nocc_a = (mol.nelectron + spin) // 2
                 nocc_b = (mol.nelectron - spin) // 2
                 # a physical (node-free where it matters) density: occupied orbitals of the core Hamiltonian;
@@ -242,6 +246,8 @@ def e2e_checks(ck, rng, quick):
                     n_, e_, v_ = ks._numint.nr_uks(mol, ks.grids, ks.xc, np.stack([Pa, Pb]))
                 else:
                     n_, e_, v_ = ks._numint.nr_rks(mol, ks.grids, ks.xc, 2 * Pa)
+            except MachineryError:
+                raise
             except Exception as ex:
                 ck.violation("e2e:%s:%s+%s:exception-%s" % (name, nldf, sdmx, type(ex).__name__), {"msg": str(ex)[:300]})
                 continue
